@@ -12,6 +12,7 @@
 //     values at return are recorded as a further event of the same kind for that call (the property
 //     predicate allows one signing request and one submission per call, so this is a violation with
 //     the input at hand) and the case is marked with a problem (so it is a mismatch as well).
+//
 // Everything else (attestation data, accounts, run ids, the trace) is attenv.env's.
 package attenv
 
@@ -25,7 +26,33 @@ import (
 	e2wtypes "github.com/wealdtech/go-eth2-wallet-types/v2"
 )
 
-type env2 struct{ *env }
+type env2 struct {
+	*env
+	// signLat[i], when not empty: (validator, latency) pairs of call i -- the remote signer is slower
+	// for some accounts than for others.  A signing request is answered when its slowest account has
+	// answered: after the largest latency of the accounts it names (Timing.Sign for an account without
+	// an entry).  See c04_conc.go.
+	signLat [][][2]uint64
+}
+
+func (e *env2) signLatency(i int, r *Run, idxs []uint64) uint64 {
+	if i >= len(e.signLat) || len(e.signLat[i]) == 0 || len(idxs) == 0 {
+		return r.Timing.Sign
+	}
+	var m uint64
+	for _, v := range idxs {
+		l := r.Timing.Sign
+		for _, p := range e.signLat[i] {
+			if p[0] == v {
+				l = p[1]
+			}
+		}
+		if l > m {
+			m = l
+		}
+	}
+	return m
+}
 
 func readSignArgs(e *env, accounts []e2wtypes.Account, committeeIndices []phase0.CommitteeIndex) (idxs, comms []uint64, pairs [][2]uint64) {
 	idxs = make([]uint64, len(accounts))
@@ -66,7 +93,7 @@ func (e *env2) SignBeaconAttestations(ctx context.Context, accounts []e2wtypes.A
 	e.trace = append(e.trace, Event{Kind: "sign", Run: i, Vote: &vt, Pairs: pairs})
 	e.mu.Unlock()
 
-	sleepMs(r.Timing.Sign)
+	sleepMs(e.signLatency(i, r, idxs))
 
 	// the arguments are the caller's until the call returns: they must still be what they were
 	if _, _, later := readSignArgs(e.env, accounts, committeeIndices); fmt.Sprint(later) != fmt.Sprint(pairs) {
